@@ -9,7 +9,9 @@ of a number that the release build wraps silently.
 """
 from __future__ import annotations
 
+import calendar
 import datetime as dt
+import re
 import sys
 import traceback
 import warnings
@@ -36,7 +38,7 @@ RULE = ("seeds = every valid form of C07/C13 (~60); all single insertions/replac
 ASSUMPTIONS = ["parse('now') is the documented special case and is not generated", "tz= values are valid timezones",
                "warnings from dateutil are silenced, not judged"]
 
-SEEDS = ["2020-02-29T10:11:12.123456+05:30", "2020-06-15T12:00:00-00:30", "20200615T120000-0045", "2020-06-15T12:00:00.000249-00:01", "2020-02-29T10:11:12Z", "2020-02-29 10:11:12", "2020-02-29", "20200229", "2020-060", "2020060",
+SEEDS = ["2020-02-29T10:11:12.123456+05:30", "2020-000", "2021000", "2020-W00-1", "2020-W54", "2019-366", "2020-13-01", "2021-02-29", "2020-06-15T12:00:00-00:30", "20200615T120000-0045", "2020-06-15T12:00:00.000249-00:01", "2020-02-29T10:11:12Z", "2020-02-29 10:11:12", "2020-02-29", "20200229", "2020-060", "2020060",
          "2020-W09-6", "2020W096", "2020-W09", "2020W09", "2020-02", "2020", "20200229T101112Z", "20200229T101112,5-0530", "2020-02-29T10",
          "2020-02-29T10:11", "2020-02-29T10:11:12,123456789", "10:11:12", "10:11", "T101112", "10:11:12.5", "2020-02-29T10:11:12+05",
          "P1Y2M3DT4H5M6S", "P2W", "PT1.5S", "P1.5D", "PT0.000001S", "P1Y", "PT36H", "P1,5W", "P3DT4H", "PT5M", "P10Y11M",
@@ -75,6 +77,14 @@ def setup(M):
             return
         M.check("parse.outcome", isinstance(ret, OK), f"C17/unsupported-return-type:{type(ret).__name__}", "parse() returned an unsupported type",
                 s=a[0] if a else None, opts=_o(k), got=repr(ret)[:200])
+        # a value returned for a pure date form must be the date the digits denote - not one wrapped around the calendar
+        # (day 000 -> 31 December, week 00, month 13 ...); judged under strict parsing only
+        if a and isinstance(a[0], str) and k.get("strict", True) and isinstance(ret, (P.DateTime, P.Date)) and not isinstance(ret, P.Interval):
+            den = _denoted_date(a[0].strip())
+            if den is not None:
+                got = (ret.year, ret.month, ret.day)
+                M.check("parse.outcome", den != "impossible" and got == den, "C17/date-form-value:" + ("impossible-accepted" if den == "impossible" else "wrong"),
+                        "a date form was accepted with a value its digits do not denote", s=a[0], opts=_o(k), got=got, denoted=den)
 
     def exc(e, a, k, snap):
         if isinstance(e, ValueError):
@@ -86,6 +96,41 @@ def setup(M):
                 s=a[0] if a else None, opts=_o(k), exc=repr(e)[:200], where=w)
 
     M.contract(pendulum, "parse", post=post, exc=exc, label="pendulum.parse")
+
+
+_RE_ORD = re.compile(r"^(\d{4})-?(\d{3})$")
+_RE_CAL = re.compile(r"^(\d{4})-(\d{2})-(\d{2})$")
+_RE_WK = re.compile(r"^(\d{4})-?W(\d{2})(?:-?(\d))?$")
+
+
+def _denoted_date(s):
+    """(y, m, d) | 'impossible' | None (not one of the three pure date shapes)"""
+    import datetime as dt
+
+    try:
+        m = _RE_ORD.match(s)
+        if m:
+            y, o = int(m.group(1)), int(m.group(2))
+            if y < 1 or not 1 <= o <= (366 if calendar.isleap(y) else 365):
+                return "impossible"
+            d = dt.date(y, 1, 1) + dt.timedelta(days=o - 1)
+            return (d.year, d.month, d.day)
+        m = _RE_CAL.match(s)
+        if m:
+            y, mo, d = (int(g) for g in m.groups())
+            if y < 1 or not 1 <= mo <= 12 or not 1 <= d <= calendar.monthrange(y, mo)[1]:
+                return "impossible"
+            return (y, mo, d)
+        m = _RE_WK.match(s)
+        if m:
+            y, w, wd = int(m.group(1)), int(m.group(2)), int(m.group(3) or 1)
+            if y < 1 or not 1 <= wd <= 7 or not 1 <= w <= dt.date(y, 12, 28).isocalendar()[1]:
+                return "impossible"
+            d = dt.date.fromisocalendar(y, w, wd)
+            return (d.year, d.month, d.day)
+    except (ValueError, OverflowError):
+        return None
+    return None
 
 
 def _o(k):
